@@ -10,6 +10,16 @@
 //!   limx <rows> <coll> <apply> ; <cypher>             C33, engine only (operators outside the model's fragment) -> ok|ALTERED
 //!   limt <timeout_ms> ; <cypher>                      C33, soft timeout, in a child process -> ok|ALTERED|HANG
 //!   w <classes> ; <prefix> ; <pred> ; <suffix>        C19: the four queries             -> partition|lost:k|dup:k|err | base=.. t=.. f=.. n=..
+//!   qg <graph> ; <plan tokens> ; <cypher>             C22 on the fixed graph number <graph> (built by `build_graph`, no setup lines)
+//!   limg <graph> <rows> <coll> <apply> ; <plan tokens> ; <cypher>     C33 on a fixed graph
+//!   limxg <graph> <rows> <coll> <apply> ; <cypher>    C33 on a fixed graph, engine only
+//!   wq ; <write plan tokens> ; <cypher>              C22, write statement without RETURN (`execute_write`), never committed -> ok | err:<class>
+//!   wm ; <write plan tokens> ; <cypher>              C22, write statement with RETURN (`execute_mixed`: staged)  -> ok | err:<class>
+//!   wlim <coll> ; <write plan tokens> ; <cypher>     C33, `execute_write` under a collection limit -> complete|limit|ALTERED | lim=.. unl=..
+//!   wmlim <coll> ; <write plan tokens> ; <cypher>    C33, `execute_mixed` under a collection limit
+//! On graph lines the plan tokens carry the graph facts the plan needs as row tables (node scans,
+//! the rows every expansion / procedure call yields per input row, index entries), materialised at
+//! generation time from the same graph.
 //! The plan tokens are the ENGINE'S OWN compiled plan (verif hook `PreparedQuery::verif_plan`)
 //! translated structurally into the operator model's syntax; `classes` is the class (T/F/N/O/E) of the
 //! predicate's value for every row of the unfiltered query, computed by the engine at generation time.
@@ -34,14 +44,87 @@ pub fn def_where() -> StreamDef {
 struct S {
     _dir: tempfile::TempDir,
     db: Db,
+    graphs: std::collections::HashMap<u64, (tempfile::TempDir, Db)>,
 }
 
 impl S {
     fn new() -> Self {
+        register_fixtures();
         let dir = tempfile::tempdir().expect("tempdir");
         let db = Db::open(dir.path().join("plan.ndb")).expect("open");
-        S { _dir: dir, db }
+        S { _dir: dir, db, graphs: std::collections::HashMap::new() }
     }
+
+    fn graph(&mut self, id: u64) -> &Db {
+        &self.graphs.entry(id).or_insert_with(|| build_graph(id)).1
+    }
+}
+
+// ------------------------------------------------------------------ fixed graphs, procedure fixtures
+
+/// `test.my.proc(in :: INTEGER) :: (out :: INTEGER)`: 1 -> 10, 11; 2 -> 20; 3 -> 30; anything else -> no row;
+/// a non-integer argument is an error
+fn register_fixtures() {
+    use nervusdb_query::executor::{TestProcedureField, TestProcedureFixture, TestProcedureType, register_test_procedure_fixture};
+    let row = |i: i64, o: i64| {
+        let mut m = std::collections::BTreeMap::new();
+        m.insert("in".to_string(), Value::Int(i));
+        m.insert("out".to_string(), Value::Int(o));
+        m
+    };
+    register_test_procedure_fixture(
+        "test.my.proc",
+        TestProcedureFixture {
+            inputs: vec![TestProcedureField { name: "in".into(), field_type: TestProcedureType::Integer, nullable: false }],
+            outputs: vec![TestProcedureField { name: "out".into(), field_type: TestProcedureType::Integer, nullable: true }],
+            rows: vec![row(1, 10), row(1, 11), row(2, 20), row(3, 30)],
+        },
+    );
+}
+
+const GRAPH_V: &[&str] = &["1", "0", "2", "'true'", "'false'", "true", "false", "'x'", "'7'"];
+const GRAPH_K: &[&str] = &["'s'", "'t'", "'u'"];
+
+/// the fixed graph number `id`: a few `:N` nodes (`i` = index, `v` = a value of mixed type, `k` = a
+/// short string, indexed on even ids), two `:M` nodes, `:R` edges among the `:N` nodes (a ring, some
+/// chords, now and then a loop or a parallel edge), `:S` edges from `:N` to `:M`
+pub fn build_graph(id: u64) -> (tempfile::TempDir, Db) {
+    let dir = tempfile::tempdir().expect("tempdir");
+    let db = Db::open(dir.path().join("graph.ndb")).expect("open");
+    let mut rng = Rng::new(id.wrapping_mul(0x9e3779b97f4a7c15) ^ 0x5bd1e995);
+    let nn = 4 + rng.below(3) as i64;
+    let w = |cy: String| {
+        let r = run_write(&db, &cy);
+        assert!(r == "ok", "graph setup failed: {} -> {}", cy, r);
+    };
+    for i in 0..nn {
+        let v = *rng.pick(GRAPH_V);
+        let k = *rng.pick(GRAPH_K);
+        w(format!("CREATE (:N {{i: {}, v: {}, k: {}}})", i, v, k));
+    }
+    for i in 0..2 {
+        w(format!("CREATE (:M {{i: {}, v: {}}})", i, *rng.pick(GRAPH_V)));
+    }
+    let edge = |a: i64, b: i64| w(format!("MATCH (a:N {{i: {}}}), (b:N {{i: {}}}) CREATE (a)-[:R]->(b)", a, b));
+    for i in 0..nn {
+        edge(i, (i + 1) % nn);
+        if rng.chance(1, 3) {
+            edge(i, (i + 2) % nn);
+        }
+        if rng.chance(1, 8) {
+            edge(i, i);
+        }
+        if rng.chance(1, 8) {
+            edge(i, (i + 1) % nn);
+        }
+        if rng.chance(1, 2) {
+            w(format!("MATCH (a:N {{i: {}}}), (b:M {{i: {}}}) CREATE (a)-[:S]->(b)", i, rng.below(2)));
+        }
+    }
+    if id % 2 == 0 {
+        db.create_index("N", "k").expect("index");
+    }
+    (dir, db)
 }
 
 // ------------------------------------------------------------------ canonical output
@@ -56,6 +139,13 @@ pub fn canon_value(v: &Value) -> String {
         Value::Float(f) => format!("f{:016x}", f.to_bits()),
         Value::List(xs) => format!("[{}]", xs.iter().map(canon_value).collect::<Vec<_>>().join(",")),
         Value::NodeId(n) => format!("n{}", n),
+        // opaque tokens (the model never looks inside): relationship keys and paths
+        Value::EdgeKey(e) => format!("s~e{}_{}_{}", e.src, e.rel, e.dst),
+        Value::Path(p) => format!(
+            "s~p{}|{}",
+            p.nodes.iter().map(|n| n.to_string()).collect::<Vec<_>>().join("_"),
+            p.edges.iter().map(|e| format!("{}.{}.{}", e.src, e.rel, e.dst)).collect::<Vec<_>>().join("_")
+        ),
         other => format!("?{:?}", other).replace([' ', '\t', '\n'], "_"),
     }
 }
@@ -297,14 +387,271 @@ fn scalar_token(l: &Literal) -> Option<String> {
 /// is compiled against them) and whether we are inside an argument that `ensure_runtime_…`
 /// evaluates for its type check (the model does not follow subqueries run there)
 #[derive(Clone)]
-struct Cx {
+struct Cx<'g> {
     cols: Vec<String>,
     checked_arg: bool,
+    gx: Option<&'g Gx<'g>>,
+}
+
+/// graph context of a translation (generation time): the leaves, expansions, index seeks and
+/// procedure calls of the engine's plan are materialised against this snapshot into row tables
+pub struct Gx<'g> {
+    snap: &'g nervusdb_core::DbSnapshot,
+    /// the graph-dependent atoms of the query's expressions — `alias.property`, `alias:Label` —
+    /// carried by the table rows as pseudo-columns of that name: (alias, column name, expression)
+    props: Vec<(String, String, Expression)>,
+}
+
+/// `alias.property` / `alias:Label` as a pseudo-column: (alias, column name)
+fn graph_atom(e: &Expression) -> Option<(String, String)> {
+    match e {
+        Expression::PropertyAccess(pa) if ident_ok(&pa.variable) && ident_ok(&pa.property) => {
+            Some((pa.variable.clone(), format!("{}.{}", pa.variable, pa.property)))
+        }
+        Expression::Binary(b) if matches!(b.operator, BinaryOperator::HasLabel) => match (&b.left, &b.right) {
+            (Expression::Variable(a), Expression::Literal(Literal::String(l))) if ident_ok(a) && ident_ok(l) => {
+                Some((a.clone(), format!("{}:{}", a, l)))
+            }
+            _ => None,
+        },
+        _ => None,
+    }
+}
+
+const MAX_TABLE_ROWS: usize = 160;
+const MAX_LINE_TOKENS: usize = 9000;
+
+fn val_tokens(v: &Value, out: &mut Vec<String>) -> Option<()> {
+    match v {
+        Value::List(xs) => {
+            out.push("list".into());
+            out.push(xs.len().to_string());
+            for x in xs {
+                if matches!(x, Value::List(_)) {
+                    return None;
+                }
+                val_tokens(x, out)?;
+            }
+        }
+        Value::Null | Value::Bool(_) | Value::Int(_) | Value::String(_) | Value::NodeId(_) | Value::EdgeKey(_) | Value::Path(_) => {
+            let t = canon_value(v);
+            if t.chars().any(|c| c.is_whitespace()) || t.len() < 2 {
+                return None;
+            }
+            out.push(t);
+        }
+        _ => return None,
+    }
+    Some(())
+}
+
+impl<'g> Gx<'g> {
+    fn params() -> Params {
+        Params::with_execute_options(unlimited())
+    }
+
+    /// `r <k> (<name> <value>)*`: the row's columns, then the pseudo-columns of its node bindings
+    fn row_tokens(&self, r: &Row, out: &mut Vec<String>) -> Option<()> {
+        let params = Self::params();
+        let mut cols: Vec<(String, Value)> = r.columns().to_vec();
+        for (a, name, e) in &self.props {
+            match r.get(a) {
+                Some(Value::NodeId(_)) | Some(Value::Node(_)) | Some(Value::Null) | Some(Value::EdgeKey(_)) | Some(Value::Relationship(_)) => {
+                    let v = nervusdb_query::evaluator::evaluate_expression_value(e, r, self.snap, &params);
+                    cols.push((name.clone(), v));
+                }
+                _ => {}
+            }
+        }
+        out.push("r".into());
+        out.push(cols.len().to_string());
+        for (k, v) in &cols {
+            if k.is_empty() || k.chars().any(|c| c.is_whitespace()) {
+                return None;
+            }
+            out.push(k.clone());
+            val_tokens(v, out)?;
+        }
+        Some(())
+    }
+
+    fn items_tokens(&self, items: &[Result<Row, Error>], out: &mut Vec<String>) -> Option<()> {
+        out.push(items.len().to_string());
+        for it in items {
+            match it {
+                Ok(r) => {
+                    out.push("ok".into());
+                    self.row_tokens(r, out)?;
+                }
+                Err(e) => {
+                    let c = err_class(e);
+                    if c.starts_with("limit") {
+                        return None;
+                    }
+                    out.push("err".into());
+                    out.push(c);
+                }
+            }
+        }
+        Some(())
+    }
+
+    /// the distinct `Ok` rows the engine's plan yields (the rows the operator above it can meet)
+    fn rows_of(&self, p: &Plan) -> Option<Vec<Row>> {
+        let params = Self::params();
+        let mut seen = std::collections::BTreeSet::new();
+        let mut rows = Vec::new();
+        for it in nervusdb_query::executor::execute_plan(self.snap, p, &params) {
+            if let Ok(r) = it {
+                if seen.insert(canon_row(&r)) {
+                    rows.push(r);
+                    if rows.len() > MAX_TABLE_ROWS {
+                        return None;
+                    }
+                }
+            }
+        }
+        Some(rows)
+    }
+
+    /// `<n> (<input row> <k> <item>*k)*n`: what the node yields for every single input row
+    fn table_tokens(&self, node: &Plan, inp: &Plan, out: &mut Vec<String>) -> Option<()> {
+        let rows = self.rows_of(inp)?;
+        out.push(rows.len().to_string());
+        for r in rows {
+            self.row_tokens(&r, out)?;
+            let one = with_input(node, Plan::Values { rows: vec![r.clone()] })?;
+            let params = Self::params();
+            let items: Vec<Result<Row, Error>> = nervusdb_query::executor::execute_plan(self.snap, &one, &params).collect();
+            if items.len() > MAX_TABLE_ROWS {
+                return None;
+            }
+            self.items_tokens(&items, out)?;
+            if out.len() > MAX_LINE_TOKENS {
+                return None;
+            }
+        }
+        Some(())
+    }
+}
+
+/// the node with its input plan replaced (Match* with input, ProcedureCall)
+fn with_input(node: &Plan, inp: Plan) -> Option<Plan> {
+    let mut n = node.clone();
+    match &mut n {
+        Plan::MatchOut { input, .. } | Plan::MatchOutVarLen { input, .. } | Plan::MatchIn { input, .. } | Plan::MatchUndirected { input, .. } => {
+            *input = Some(Box::new(inp))
+        }
+        Plan::MatchBoundRel { input, .. } | Plan::ProcedureCall { input, .. } => *input = Box::new(inp),
+        _ => return None,
+    }
+    Some(n)
+}
+
+fn walk_expr(e: &Expression, f: &mut dyn FnMut(&Expression)) {
+    f(e);
+    match e {
+        Expression::List(items) => items.iter().for_each(|x| walk_expr(x, f)),
+        Expression::Unary(u) => walk_expr(&u.operand, f),
+        Expression::Binary(b) => {
+            walk_expr(&b.left, f);
+            walk_expr(&b.right, f);
+        }
+        Expression::FunctionCall(c) => c.args.iter().for_each(|x| walk_expr(x, f)),
+        Expression::Case(c) => {
+            if let Some(x) = &c.expression {
+                walk_expr(x, f);
+            }
+            for (w, t) in &c.when_clauses {
+                walk_expr(w, f);
+                walk_expr(t, f);
+            }
+            if let Some(x) = &c.else_expression {
+                walk_expr(x, f);
+            }
+        }
+        _ => {}
+    }
+}
+
+fn walk_plan_exprs(p: &Plan, f: &mut dyn FnMut(&Expression)) {
+    match p {
+        Plan::Filter { input, predicate } => {
+            walk_expr(predicate, f);
+            walk_plan_exprs(input, f);
+        }
+        Plan::Project { input, projections } => {
+            projections.iter().for_each(|(_, e)| walk_expr(e, f));
+            walk_plan_exprs(input, f);
+        }
+        Plan::Aggregate { input, aggregates, .. } => {
+            for (a, _) in aggregates {
+                match a {
+                    AggregateFunction::Count(Some(e)) | AggregateFunction::Collect(e) | AggregateFunction::Sum(e) | AggregateFunction::Min(e) | AggregateFunction::Max(e) => walk_expr(e, f),
+                    _ => {}
+                }
+            }
+            walk_plan_exprs(input, f);
+        }
+        Plan::OrderBy { input, items } => {
+            items.iter().for_each(|(e, _)| walk_expr(e, f));
+            walk_plan_exprs(input, f);
+        }
+        Plan::Unwind { input, expression, .. } => {
+            walk_expr(expression, f);
+            walk_plan_exprs(input, f);
+        }
+        Plan::Skip { input, skip: e } | Plan::Limit { input, limit: e } => {
+            walk_expr(e, f);
+            walk_plan_exprs(input, f);
+        }
+        Plan::Distinct { input } | Plan::MatchBoundRel { input, .. } => walk_plan_exprs(input, f),
+        Plan::ProcedureCall { input, args, .. } => {
+            args.iter().for_each(|e| walk_expr(e, f));
+            walk_plan_exprs(input, f);
+        }
+        Plan::MatchOut { input, .. } | Plan::MatchOutVarLen { input, .. } | Plan::MatchIn { input, .. } | Plan::MatchUndirected { input, .. } => {
+            if let Some(i) = input {
+                walk_plan_exprs(i, f)
+            }
+        }
+        Plan::IndexSeek { value_expr, fallback, .. } => {
+            walk_expr(value_expr, f);
+            walk_plan_exprs(fallback, f);
+        }
+        Plan::OptionalWhereFixup { outer, filtered, .. } => {
+            walk_plan_exprs(outer, f);
+            walk_plan_exprs(filtered, f);
+        }
+        Plan::Union { left, right, .. } | Plan::CartesianProduct { left, right } => {
+            walk_plan_exprs(left, f);
+            walk_plan_exprs(right, f);
+        }
+        Plan::Apply { input, subquery, .. } => {
+            walk_plan_exprs(input, f);
+            walk_plan_exprs(subquery, f);
+        }
+        _ => {}
+    }
+}
+
+fn collect_props(p: &Plan) -> Vec<(String, String, Expression)> {
+    let mut out: Vec<(String, String, Expression)> = Vec::new();
+    walk_plan_exprs(p, &mut |e| {
+        if let Some((a, name)) = graph_atom(e) {
+            if !out.iter().any(|(_, n, _)| *n == name) {
+                out.push((a, name, e.clone()));
+            }
+        }
+    });
+    out
 }
 
 fn expr_tokens(e: &Expression, cx: &Cx, out: &mut Vec<String>) -> Option<()> {
     match e {
         Expression::Literal(l) => out.push(scalar_token(l)?),
+        // a property / label test of a bound node: the pseudo-column the graph tables carry
+        _ if cx.gx.is_some() && graph_atom(e).is_some() => out.push(format!("v{}", graph_atom(e)?.1)),
         Expression::Variable(v) if ident_ok(v) => out.push(format!("v{}", v)),
         Expression::List(items) => {
             let lit = |it: &Expression| -> Option<String> {
@@ -371,7 +718,7 @@ fn expr_tokens(e: &Expression, cx: &Cx, out: &mut Vec<String>) -> Option<()> {
                 ("range", 2) => out.push("range".into()),
                 _ => return None,
             }
-            let inner = Cx { cols: cx.cols.clone(), checked_arg: true };
+            let inner = Cx { cols: cx.cols.clone(), checked_arg: true, gx: cx.gx };
             for a in &c.args {
                 expr_tokens(a, &inner, out)?;
             }
@@ -393,7 +740,7 @@ fn expr_tokens(e: &Expression, cx: &Cx, out: &mut Vec<String>) -> Option<()> {
             ExistsExpression::Subquery(q) if !cx.checked_arg => {
                 let sub = nervusdb_query::query_api::verif_compile_exists_subquery(q, &cx.cols).ok()?;
                 out.push("existsx".into());
-                plan_tokens(&sub, out)?;
+                plan_tokens(&sub, None, out)?;
             }
             _ => return None,
         },
@@ -462,26 +809,65 @@ fn collect_aliases(p: &Plan, out: &mut Vec<String>) {
             collect_aliases(input, out);
             collect_aliases(subquery, out);
         }
+        Plan::NodeScan { alias, .. } => push(alias),
+        Plan::IndexSeek { alias, fallback, .. } => {
+            push(alias);
+            collect_aliases(fallback, out);
+        }
+        Plan::MatchOut { input, src_alias, edge_alias, dst_alias, .. }
+        | Plan::MatchOutVarLen { input, src_alias, edge_alias, dst_alias, .. }
+        | Plan::MatchIn { input, src_alias, edge_alias, dst_alias, .. }
+        | Plan::MatchUndirected { input, src_alias, edge_alias, dst_alias, .. } => {
+            push(src_alias);
+            push(dst_alias);
+            if let Some(e) = edge_alias {
+                push(e);
+            }
+            if let Some(i) = input {
+                collect_aliases(i, out);
+            }
+        }
+        Plan::MatchBoundRel { input, rel_alias, src_alias, dst_alias, .. } => {
+            push(rel_alias);
+            push(src_alias);
+            push(dst_alias);
+            collect_aliases(input, out);
+        }
+        Plan::ProcedureCall { input, yields, .. } => {
+            for (f, a) in yields {
+                push(a.as_ref().unwrap_or(f));
+            }
+            collect_aliases(input, out);
+        }
+        Plan::OptionalWhereFixup { outer, filtered, .. } => {
+            collect_aliases(outer, out);
+            collect_aliases(filtered, out);
+        }
         _ => {}
     }
 }
 
 /// structural translation of the engine's plan; `None` = outside the model's fragment
-fn plan_tokens(p: &Plan, out: &mut Vec<String>) -> Option<()> {
+fn plan_tokens(p: &Plan, gx: Option<&Gx>, out: &mut Vec<String>) -> Option<()> {
     let cx_of = |input: &Plan| {
         let mut cols = Vec::new();
         collect_aliases(input, &mut cols);
-        Cx { cols, checked_arg: false }
+        Cx { cols, checked_arg: false, gx }
     };
+    if out.len() > MAX_LINE_TOKENS {
+        return None;
+    }
     match p {
         Plan::ReturnOne => out.push("one".into()),
+        // the input of a staged clause of a write statement: the rows of the stage below
+        Plan::Values { rows } if rows.len() == 1 && rows[0].get("__hole").is_some() => out.push("hole".into()),
         // the leaf of an EXISTS subquery: the outer row (column values are placeholders here)
         Plan::Values { rows } if rows.len() == 1 => out.push("arg".into()),
         Plan::Unwind { input, expression, alias } if ident_ok(alias) => {
             out.push("unwind".into());
             out.push(alias.clone());
             expr_tokens(expression, &cx_of(input), out)?;
-            plan_tokens(input, out)?;
+            plan_tokens(input, gx, out)?;
         }
         Plan::Filter { input, predicate } => match predicate {
             Expression::Exists(ex) => match ex.as_ref() {
@@ -490,20 +876,36 @@ fn plan_tokens(p: &Plan, out: &mut Vec<String>) -> Option<()> {
                     collect_aliases(input, &mut cols);
                     let sub = nervusdb_query::query_api::verif_compile_exists_subquery(q, &cols).ok()?;
                     out.push("exists".into());
-                    plan_tokens(&sub, out)?;
-                    plan_tokens(input, out)?;
+                    plan_tokens(&sub, None, out)?;
+                    plan_tokens(input, gx, out)?;
                 }
                 _ => return None,
             },
             _ => {
                 out.push("filter".into());
                 expr_tokens(predicate, &cx_of(input), out)?;
-                plan_tokens(input, out)?;
+                plan_tokens(input, gx, out)?;
             }
         },
         Plan::Project { input, projections } => {
+            // a variable that is passed through keeps its pseudo-columns (`alias.property`, `alias:Label`)
+            let mut hidden: Vec<(String, String)> = Vec::new();
+            if let Some(g) = gx {
+                for (alias, e) in projections {
+                    if let Expression::Variable(v) = e {
+                        for (a, name, _) in &g.props {
+                            if a == alias {
+                                let src = format!("{}{}", v, &name[a.len()..]);
+                                if !hidden.iter().any(|(n, _)| n == name) {
+                                    hidden.push((name.clone(), src));
+                                }
+                            }
+                        }
+                    }
+                }
+            }
             out.push("project".into());
-            out.push(projections.len().to_string());
+            out.push((projections.len() + hidden.len()).to_string());
             for (alias, e) in projections {
                 if !ident_ok(alias) {
                     return None;
@@ -511,21 +913,25 @@ fn plan_tokens(p: &Plan, out: &mut Vec<String>) -> Option<()> {
                 out.push(alias.clone());
                 expr_tokens(e, &cx_of(input), out)?;
             }
-            plan_tokens(input, out)?;
+            for (name, src) in hidden {
+                out.push(name);
+                out.push(format!("v{}", src));
+            }
+            plan_tokens(input, gx, out)?;
         }
         Plan::Distinct { input } => {
             out.push("distinct".into());
-            plan_tokens(input, out)?;
+            plan_tokens(input, gx, out)?;
         }
         Plan::Skip { input, skip } => {
             out.push("skip".into());
             expr_tokens(skip, &cx_of(input), out)?;
-            plan_tokens(input, out)?;
+            plan_tokens(input, gx, out)?;
         }
         Plan::Limit { input, limit } => {
             out.push("limit".into());
             expr_tokens(limit, &cx_of(input), out)?;
-            plan_tokens(input, out)?;
+            plan_tokens(input, gx, out)?;
         }
         Plan::OrderBy { input, items } => {
             out.push("order".into());
@@ -534,7 +940,7 @@ fn plan_tokens(p: &Plan, out: &mut Vec<String>) -> Option<()> {
                 expr_tokens(e, &cx_of(input), out)?;
                 out.push(if matches!(d, Direction::Ascending) { "asc" } else { "desc" }.into());
             }
-            plan_tokens(input, out)?;
+            plan_tokens(input, gx, out)?;
         }
         Plan::Aggregate { input, group_by, aggregates } => {
             out.push("agg".into());
@@ -549,34 +955,289 @@ fn plan_tokens(p: &Plan, out: &mut Vec<String>) -> Option<()> {
             for (f, alias) in aggregates {
                 agg_tokens(f, alias, &cx_of(input), out)?;
             }
-            plan_tokens(input, out)?;
+            plan_tokens(input, gx, out)?;
         }
         Plan::Union { left, right, all } => {
             out.push("union".into());
             out.push(if *all { "all" } else { "dist" }.into());
-            plan_tokens(left, out)?;
-            plan_tokens(right, out)?;
+            plan_tokens(left, gx, out)?;
+            plan_tokens(right, gx, out)?;
         }
         Plan::CartesianProduct { left, right } => {
             out.push("cart".into());
-            plan_tokens(left, out)?;
-            plan_tokens(right, out)?;
+            plan_tokens(left, gx, out)?;
+            plan_tokens(right, gx, out)?;
         }
         Plan::Apply { input, subquery, .. } => {
             out.push("apply".into());
-            plan_tokens(input, out)?;
-            plan_tokens(subquery, out)?;
+            plan_tokens(input, gx, out)?;
+            plan_tokens(subquery, None, out)?;
+        }
+        // ---- graph-backed nodes: only with a snapshot to materialise them against
+        Plan::NodeScan { .. }
+        | Plan::MatchOut { input: None, .. }
+        | Plan::MatchOutVarLen { input: None, .. }
+        | Plan::MatchIn { input: None, .. }
+        | Plan::MatchUndirected { input: None, .. } => {
+            let g = gx?;
+            let params = Gx::params();
+            let items: Vec<Result<Row, Error>> = nervusdb_query::executor::execute_plan(g.snap, p, &params).collect();
+            if items.len() > MAX_TABLE_ROWS || items.iter().any(|r| r.is_err()) {
+                return None;
+            }
+            out.push("scan".into());
+            out.push(items.len().to_string());
+            for r in items.iter().flatten() {
+                g.row_tokens(r, out)?;
+            }
+        }
+        Plan::IndexSeek { alias, label, field, value_expr, fallback } => {
+            let g = gx?;
+            out.push("seek".into());
+            expr_tokens(value_expr, &Cx { cols: vec![], checked_arg: false, gx }, out)?;
+            // run the seek with a marker in place of the fallback: the marker comes back iff the fallback ran
+            let marker = Row::new(vec![("__fallback".to_string(), Value::Bool(true))]);
+            let probe = Plan::IndexSeek {
+                alias: alias.clone(),
+                label: label.clone(),
+                field: field.clone(),
+                value_expr: value_expr.clone(),
+                fallback: Box::new(Plan::Values { rows: vec![marker] }),
+            };
+            let params = Gx::params();
+            let items: Vec<Result<Row, Error>> = nervusdb_query::executor::execute_plan(g.snap, &probe, &params).collect();
+            let fell_back = items.iter().any(|r| match r {
+                Ok(r) => r.get("__fallback").is_some(),
+                Err(_) => true,
+            });
+            if fell_back {
+                out.push("miss".into());
+            } else {
+                out.push("hit".into());
+                out.push(items.len().to_string());
+                for r in items.iter().flatten() {
+                    g.row_tokens(r, out)?;
+                }
+            }
+            plan_tokens(fallback, gx, out)?;
+        }
+        Plan::MatchOut { input: Some(inp), .. }
+        | Plan::MatchOutVarLen { input: Some(inp), .. }
+        | Plan::MatchIn { input: Some(inp), .. }
+        | Plan::MatchUndirected { input: Some(inp), .. } => {
+            let g = gx?;
+            out.push("expand".into());
+            out.push(
+                match p {
+                    Plan::MatchOut { .. } => "out",
+                    Plan::MatchOutVarLen { .. } => "varlen",
+                    Plan::MatchIn { .. } => "in",
+                    _ => "undirected",
+                }
+                .into(),
+            );
+            g.table_tokens(p, inp, out)?;
+            plan_tokens(inp, gx, out)?;
+        }
+        Plan::MatchBoundRel { input, .. } => {
+            let g = gx?;
+            out.push("expand".into());
+            out.push("boundrel".into());
+            g.table_tokens(p, input, out)?;
+            plan_tokens(input, gx, out)?;
+        }
+        Plan::ProcedureCall { input, name, args, yields } => {
+            let g = gx?;
+            if args.is_empty() || yields.is_empty() {
+                return None;
+            }
+            out.push("call".into());
+            out.push(args.len().to_string());
+            for a in args {
+                expr_tokens(a, &cx_of(input), out)?;
+            }
+            // the table does NOT come from ProcedureCallIter: the registry is asked directly with the
+            // argument values, and the result rows are joined to the input row under the YIELD aliases
+            let rows = g.rows_of(input)?;
+            out.push(rows.len().to_string());
+            let proc_name = name.join(".");
+            let params = Gx::params();
+            for r in rows {
+                g.row_tokens(&r, out)?;
+                let vals: Vec<Value> =
+                    args.iter().map(|a| nervusdb_query::evaluator::evaluate_expression_value(a, &r, g.snap, &params)).collect();
+                let items: Vec<Result<Row, Error>> = match nervusdb_query::executor::get_procedure_registry().get(&proc_name) {
+                    None => vec![Err(Error::Other(format!("Procedure {} not found", proc_name)))],
+                    Some(pr) => match pr.execute(g.snap as &dyn nervusdb_query::executor::ErasedSnapshot, vals) {
+                        Err(e) => vec![Err(e)],
+                        Ok(res) => res
+                            .into_iter()
+                            .map(|pr_row| {
+                                let mut joined = r.clone();
+                                for (field, alias) in yields {
+                                    if let Some(v) = pr_row.get(field) {
+                                        joined = joined.with(alias.as_ref().unwrap_or(field).clone(), v.clone());
+                                    }
+                                }
+                                Ok(joined)
+                            })
+                            .collect(),
+                    },
+                };
+                g.items_tokens(&items, out)?;
+            }
+            plan_tokens(input, gx, out)?;
+        }
+        Plan::OptionalWhereFixup { outer, filtered, null_aliases } => {
+            gx?;
+            out.push("fixup".into());
+            out.push(null_aliases.len().to_string());
+            for a in null_aliases {
+                if a.is_empty() || a.chars().any(|c| c.is_whitespace()) {
+                    return None;
+                }
+                out.push(a.clone());
+            }
+            plan_tokens(outer, gx, out)?;
+            plan_tokens(filtered, gx, out)?;
         }
         _ => return None,
     }
     Some(())
 }
 
+fn hole_plan() -> Plan {
+    Plan::Values { rows: vec![Row::new(vec![("__hole".to_string(), Value::Bool(true))])] }
+}
+
+/// a read clause with its input replaced, and the original input
+fn replace_input(p: &Plan, new: Plan) -> Option<(Plan, &Plan)> {
+    let b = Box::new(new);
+    Some(match p {
+        Plan::Filter { input, predicate } => (Plan::Filter { input: b, predicate: predicate.clone() }, input),
+        Plan::Project { input, projections } => (Plan::Project { input: b, projections: projections.clone() }, input),
+        Plan::Aggregate { input, group_by, aggregates } => {
+            (Plan::Aggregate { input: b, group_by: group_by.clone(), aggregates: aggregates.clone() }, input)
+        }
+        Plan::OrderBy { input, items } => (Plan::OrderBy { input: b, items: items.clone() }, input),
+        Plan::Skip { input, skip } => (Plan::Skip { input: b, skip: skip.clone() }, input),
+        Plan::Limit { input, limit } => (Plan::Limit { input: b, limit: limit.clone() }, input),
+        Plan::Distinct { input } => (Plan::Distinct { input: b }, input),
+        Plan::Unwind { input, expression, alias } => {
+            (Plan::Unwind { input: b, expression: expression.clone(), alias: alias.clone() }, input)
+        }
+        _ => return None,
+    })
+}
+
+/// a write statement's plan in the syntax of the write model (Model/WriteOps.lean):
+///   wread <plan> | wstage <clause over `hole`> <wplan> | wwrite <n> <expr>*n <wplan> | wforeach <var> <list> <sub wplan> <wplan>
+/// `staged` = the statement runs through `execute_write_with_rows` (every clause is a stage)
+fn wplan_tokens(p: &Plan, staged: bool, in_sub: bool, out: &mut Vec<String>) -> Option<()> {
+    let cx_of = |input: &Plan| {
+        let mut cols = Vec::new();
+        collect_aliases(input, &mut cols);
+        Cx { cols, checked_arg: false, gx: None }
+    };
+    match p {
+        Plan::Create { input, pattern, merge } if !*merge => {
+            let mut exprs: Vec<&Expression> = Vec::new();
+            for el in &pattern.elements {
+                let props = match el {
+                    nervusdb_query::ast::PathElement::Node(n) => &n.properties,
+                    nervusdb_query::ast::PathElement::Relationship(r) => &r.properties,
+                };
+                if let Some(m) = props {
+                    for pair in &m.properties {
+                        exprs.push(&pair.value);
+                    }
+                }
+            }
+            out.push("wwrite".into());
+            out.push(exprs.len().to_string());
+            for e in exprs {
+                expr_tokens(e, &cx_of(input), out)?;
+            }
+            wplan_tokens(input, staged, in_sub, out)
+        }
+        Plan::Foreach { input, variable, list, sub_plan } if ident_ok(variable) => {
+            out.push("wforeach".into());
+            out.push(variable.clone());
+            expr_tokens(list, &cx_of(input), out)?;
+            wplan_tokens(sub_plan, false, true, out)?;
+            wplan_tokens(input, staged, in_sub, out)
+        }
+        Plan::Values { .. } if in_sub => {
+            out.push("wread".into());
+            out.push("arg".into());
+            Some(())
+        }
+        _ => {
+            if staged && let Some((node, inp)) = replace_input(p, hole_plan()) {
+                out.push("wstage".into());
+                plan_tokens(&node, None, out)?;
+                return wplan_tokens(inp, staged, in_sub, out);
+            }
+            out.push("wread".into());
+            plan_tokens(p, None, out)
+        }
+    }
+}
+
+fn model_wplan(cypher: &str, staged: bool) -> Option<String> {
+    let q = prepare(cypher).ok()?;
+    let mut out = Vec::new();
+    wplan_tokens(q.verif_plan(), staged, false, &mut out)?;
+    Some(out.join(" "))
+}
+
+/// a write statement, never committed: `ok` / `err:<class>`
+fn try_write(db: &Db, cypher: &str, mixed: bool, opts: ExecuteOptions) -> Outcome {
+    let q = match prepare(cypher) {
+        Ok(q) => q,
+        Err(e) => return Outcome::Err(format!("prepare:{}", err_class(&e))),
+    };
+    let snap = db.snapshot();
+    let mut txn = db.begin_write();
+    let params = Params::with_execute_options(opts);
+    let r = if mixed {
+        q.execute_mixed(&snap, &mut txn, &params).map(|_| ())
+    } else {
+        q.execute_write(&snap, &mut txn, &params).map(|_| ())
+    };
+    drop(txn);
+    match r {
+        Ok(()) => Outcome::Rows(vec![]),
+        Err(e) => Outcome::Err(err_class(&e)),
+    }
+}
+
+fn show_w(o: &Outcome) -> String {
+    match o {
+        Outcome::Rows(_) => "ok".into(),
+        Outcome::Err(e) if e.starts_with("limit:") => "err:limit".into(),
+        Outcome::Err(e) => format!("err:{}", e),
+    }
+}
+
 /// the model-syntax plan of a query, from the engine's planner
 fn model_plan(cypher: &str) -> Option<String> {
     let q = prepare(cypher).ok()?;
     let mut out = Vec::new();
-    plan_tokens(q.verif_plan(), &mut out)?;
+    plan_tokens(q.verif_plan(), None, &mut out)?;
+    Some(out.join(" "))
+}
+
+/// the same against a graph: leaves, expansions, seeks and calls become row tables
+fn model_plan_db(db: &Db, cypher: &str) -> Option<String> {
+    let q = prepare(cypher).ok()?;
+    let snap = db.snapshot();
+    let gx = Gx { snap: &snap, props: collect_props(q.verif_plan()) };
+    let mut out = Vec::new();
+    plan_tokens(q.verif_plan(), Some(&gx), &mut out)?;
+    if out.len() > MAX_LINE_TOKENS {
+        return None;
+    }
     Some(out.join(" "))
 }
 
@@ -610,6 +1271,61 @@ impl State for S {
                 } else {
                     format!("{} | rows={}", o.show(), emitted)
                 }
+            }
+            "wq" | "wm" => match try_write(&self.db, &last, ws[0] == "wm", unlimited()) {
+                Outcome::Rows(_) => "ok".into(),
+                Outcome::Err(e) => format!("err:{}", e),
+            },
+            "wlim" | "wmlim" if ws.len() > 2 => {
+                let unl = try_write(&self.db, &last, ws[0] == "wmlim", unlimited());
+                let o = ExecuteOptions { max_collection_items: num(ws[1]), ..unlimited() };
+                let lim = try_write(&self.db, &last, ws[0] == "wmlim", o);
+                let rel = if show_w(&lim) == show_w(&unl) {
+                    "complete"
+                } else if lim.is_limit() {
+                    "limit"
+                } else {
+                    "ALTERED"
+                };
+                format!("{} | lim={} unl={}", rel, show_w(&lim), show_w(&unl))
+            }
+            "wtokens" => model_wplan(&last, false).unwrap_or_else(|| "unsupported".into()),
+            "wmtokens" => model_wplan(&last, true).unwrap_or_else(|| "unsupported".into()),
+            "qg" if ws.len() > 2 => {
+                let id = ws[1].parse::<u64>().unwrap_or(0);
+                let (o, emitted) = run_query(self.graph(id), &last, unlimited());
+                if ws.contains(&"existsx") {
+                    format!("{} | rows=-", o.show())
+                } else {
+                    format!("{} | rows={}", o.show(), emitted)
+                }
+            }
+            "limg" if ws.len() > 5 => {
+                let id = ws[1].parse::<u64>().unwrap_or(0);
+                let o = ExecuteOptions {
+                    max_intermediate_rows: num(ws[2]),
+                    max_collection_items: num(ws[3]),
+                    max_apply_rows_per_outer: num(ws[4]),
+                    soft_timeout_ms: 0,
+                };
+                let db = self.graph(id);
+                let (unl, emitted) = run_query(db, &last, unlimited());
+                let (lim, _) = run_query(db, &last, o);
+                let rows = if ws.contains(&"existsx") { "-".to_string() } else { emitted.to_string() };
+                format!("{} | lim={} unl={} rows={}", limited_rel(&unl, &lim), lim.show_l(), unl.show_l(), rows)
+            }
+            "limxg" if ws.len() > 5 => {
+                let id = ws[1].parse::<u64>().unwrap_or(0);
+                let o = ExecuteOptions {
+                    max_intermediate_rows: num(ws[2]),
+                    max_collection_items: num(ws[3]),
+                    max_apply_rows_per_outer: num(ws[4]),
+                    soft_timeout_ms: 0,
+                };
+                let db = self.graph(id);
+                let (unl, _) = run_query(db, &last, unlimited());
+                let (lim, _) = run_query(db, &last, o);
+                if limited_rel(&unl, &lim) == "ALTERED" { "ALTERED".into() } else { "ok".into() }
             }
             "lim" if ws.len() > 4 => {
                 let (unl, emitted) = run_query(&self.db, &last, unlimited());
@@ -695,6 +1411,23 @@ impl State for S {
                 Err(e) => format!("err:prepare:{}", err_class(&e)),
             },
             "tokens" => model_plan(&last).unwrap_or_else(|| "unsupported".into()),
+            "tokensg" if ws.len() > 2 => {
+                let id = ws[1].parse::<u64>().unwrap_or(0);
+                model_plan_db(self.graph(id), &last).unwrap_or_else(|| "unsupported".into())
+            }
+            "showg" if ws.len() > 2 => {
+                let id = ws[1].parse::<u64>().unwrap_or(0);
+                match run_query(self.graph(id), &last, unlimited()).0 {
+                    Outcome::Rows(rows) => {
+                        format!("ok {} | {}", rows.len(), rows.iter().map(canon_row).collect::<Vec<_>>().join(" / "))
+                    }
+                    Outcome::Err(e) => format!("err:{}", e),
+                }
+            }
+            "explaing" => match prepare(&format!("EXPLAIN {}", last)) {
+                Ok(q) => q.explain_string().unwrap_or("").replace('\n', " // "),
+                Err(e) => format!("err:prepare:{}", err_class(&e)),
+            },
             _ => "bad-op".into(),
         }
     }
@@ -945,7 +1678,11 @@ impl<'a> QGen<'a> {
         }
     }
     fn query(&mut self) -> String {
-        let mut s = self.source();
+        let s = self.source();
+        self.tail(s)
+    }
+    /// the clauses after the first source: stages, then RETURN
+    fn tail(&mut self, mut s: String) -> String {
         let k = self.rng.below(4);
         for _ in 0..k {
             s += " ";
@@ -1140,6 +1877,305 @@ fn generate_c22(rng: &mut Rng, n: usize, _tier: &str, out: &mut dyn Write) {
             made += 1;
         }
     }
+    generate_c22_graph(rng, n / 6, _tier, out);
+    writeln!(out, "#case write-sweep").unwrap();
+    for (cy, ret) in write_sweep() {
+        emit_w(out, if ret { "wm" } else { "wq" }, &cy, ret);
+    }
+}
+
+// ---- graph queries (fixed graphs of `build_graph`)
+
+/// a MATCH / CALL head: its text, the node variables it binds, its integer variables, and whether
+/// a WHERE can be appended
+struct Head {
+    text: &'static str,
+    nodes: &'static [&'static str],
+    ints: &'static [&'static str],
+    can_where: bool,
+}
+
+const HEADS: &[Head] = &[
+    Head { text: "MATCH (a:N)", nodes: &["a"], ints: &[], can_where: true },
+    // index-backed (graphs with an even number have an index on :N(k)); 'zz' matches nothing
+    Head { text: "MATCH (a:N {k: 's'})", nodes: &["a"], ints: &[], can_where: true },
+    Head { text: "MATCH (a:N {k: 'zz'})", nodes: &["a"], ints: &[], can_where: true },
+    Head { text: "MATCH (a:N {i: 2})", nodes: &["a"], ints: &[], can_where: true },
+    Head { text: "MATCH (a:N) WHERE a.k = 't'", nodes: &["a"], ints: &[], can_where: false },
+    Head { text: "MATCH (a:N {k: 's'})-[:R]->(b)", nodes: &["a", "b"], ints: &[], can_where: true },
+    Head { text: "MATCH (a:N {k: 't'})-[:R*1..3]->(b)", nodes: &["a", "b"], ints: &[], can_where: true },
+    // expansions
+    Head { text: "MATCH (a:N)-[:R]->(b)", nodes: &["a", "b"], ints: &[], can_where: true },
+    Head { text: "MATCH (a:N)<-[:R]-(b)", nodes: &["a", "b"], ints: &[], can_where: true },
+    Head { text: "MATCH (a:N)-[:R]-(b)", nodes: &["a", "b"], ints: &[], can_where: true },
+    Head { text: "MATCH (a:N)-[:R]->(b)-[:S]->(c:M)", nodes: &["a", "b", "c"], ints: &[], can_where: true },
+    Head { text: "MATCH (a:N)-[:R]->(b)<-[:R]-(c)", nodes: &["a", "b", "c"], ints: &[], can_where: true },
+    Head { text: "MATCH (a:N)-[r:R]->(b) WITH a, r MATCH (a)-[r]->(c)", nodes: &["c"], ints: &[], can_where: true },
+    // variable length
+    Head { text: "MATCH (a:N)-[:R*1..2]->(b)", nodes: &["a", "b"], ints: &[], can_where: true },
+    Head { text: "MATCH (a:N)-[:R*0..1]->(b)", nodes: &["a", "b"], ints: &[], can_where: true },
+    Head { text: "MATCH (a:N)-[:R*2..3]->(b)", nodes: &["a", "b"], ints: &[], can_where: true },
+    Head { text: "MATCH (a:N)<-[:R*1..2]-(b)", nodes: &["a", "b"], ints: &[], can_where: true },
+    Head { text: "MATCH (a:N)-[:R*1..2]-(b)", nodes: &["a", "b"], ints: &[], can_where: true },
+    Head { text: "MATCH (a:N)-[:R*1..2]->(b)-[:S]->(c:M)", nodes: &["a", "b", "c"], ints: &[], can_where: true },
+    // OPTIONAL MATCH, with and without WHERE
+    Head { text: "MATCH (a:N) OPTIONAL MATCH (a)-[:R]->(b)", nodes: &["a", "b"], ints: &[], can_where: false },
+    Head { text: "MATCH (a:N) OPTIONAL MATCH (a)-[:R]->(b) WHERE b.i > 2", nodes: &["a", "b"], ints: &[], can_where: false },
+    Head { text: "MATCH (a:N) OPTIONAL MATCH (a)-[:S]->(b:M) WHERE b.i = 0", nodes: &["a", "b"], ints: &[], can_where: false },
+    Head { text: "MATCH (a:N) OPTIONAL MATCH (a)-[:R]->(b) WHERE toBoolean(b.v)", nodes: &["a", "b"], ints: &[], can_where: false },
+    Head { text: "MATCH (a:N) OPTIONAL MATCH (a)-[:R*1..2]->(b) WHERE b.i < 2", nodes: &["a", "b"], ints: &[], can_where: false },
+    Head { text: "MATCH (a:N) OPTIONAL MATCH (a)<-[:R]-(b) WHERE toInteger(b.v) > 0", nodes: &["a", "b"], ints: &[], can_where: false },
+    Head { text: "MATCH (a:N {k: 's'}) OPTIONAL MATCH (a)-[:R]-(b) WHERE b.k = 't'", nodes: &["a", "b"], ints: &[], can_where: false },
+    // an input that can fail below an expansion / a fixup / a call (the `Err` item must travel through them)
+    Head { text: "MATCH (a:N) WHERE toBoolean(a.v) WITH a MATCH (a)-[:R]->(b)", nodes: &["a", "b"], ints: &[], can_where: true },
+    Head { text: "MATCH (a:N) WHERE toBoolean(a.v) WITH a MATCH (a)<-[:R]-(b)", nodes: &["a", "b"], ints: &[], can_where: true },
+    Head { text: "MATCH (a:N) WHERE toBoolean(a.v) WITH a MATCH (a)-[:R]-(b)", nodes: &["a", "b"], ints: &[], can_where: true },
+    Head { text: "MATCH (a:N) WHERE toInteger(a.v) >= 0 WITH a MATCH (a)-[:R*1..2]->(b)", nodes: &["a", "b"], ints: &[], can_where: true },
+    Head { text: "MATCH (a:N) WHERE toBoolean(a.v) WITH a OPTIONAL MATCH (a)-[:R]->(b) WHERE b.i > 1", nodes: &["a", "b"], ints: &[], can_where: false },
+    Head { text: "MATCH (a:N) OPTIONAL MATCH (a)-[:R]->(b) WHERE toBoolean(b.v) AND b.i > 0", nodes: &["a", "b"], ints: &[], can_where: false },
+    Head { text: "MATCH (a:N) WHERE toBoolean(a.v) CALL test.my.proc(a.i) YIELD out", nodes: &["a"], ints: &["out"], can_where: false },
+    Head { text: "MATCH (a:N)-[r:R]->(b) WHERE toInteger(b.v) >= 0 WITH a, r MATCH (a)-[r]->(c)", nodes: &["c"], ints: &[], can_where: true },
+    // cartesian product
+    Head { text: "MATCH (a:N), (b:M)", nodes: &["a", "b"], ints: &[], can_where: true },
+    Head { text: "MATCH (a:N), (b:M) WHERE toBoolean(b.v)", nodes: &["a", "b"], ints: &[], can_where: false },
+    // procedure calls
+    Head { text: "UNWIND [1, 2, 3, 4] AS q CALL test.my.proc(q) YIELD out", nodes: &[], ints: &["q", "out"], can_where: false },
+    Head { text: "UNWIND [1, 2, 'x', 3] AS q CALL test.my.proc(q) YIELD out", nodes: &[], ints: &["q", "out"], can_where: false },
+    Head { text: "UNWIND [2, null, 1] AS q CALL test.my.proc(q) YIELD out", nodes: &[], ints: &["q", "out"], can_where: false },
+    Head { text: "MATCH (a:N) CALL test.my.proc(a.i) YIELD out", nodes: &["a"], ints: &["out"], can_where: false },
+    Head { text: "MATCH (a:N) CALL test.my.proc(toInteger(a.v)) YIELD out", nodes: &["a"], ints: &["out"], can_where: false },
+    Head { text: "MATCH (a:N)-[:R]->(b) CALL test.my.proc(b.i) YIELD out AS o2", nodes: &["a", "b"], ints: &["o2"], can_where: false },
+];
+
+/// a query over a fixed graph: a head, maybe a WHERE on node properties, a WITH that turns node
+/// properties into typed scalars, then the clauses of the graph-free generator
+fn graph_query(rng: &mut Rng, size: i64, min_limit: i64) -> String {
+    let h = &HEADS[rng.below(HEADS.len() as u64) as usize];
+    let mut s = h.text.to_string();
+    if h.can_where && !h.nodes.is_empty() && rng.chance(1, 3) {
+        let n = *rng.pick(h.nodes);
+        s += &match rng.below(6) {
+            0 => format!(" WHERE toBoolean({}.v)", n),
+            1 => format!(" WHERE {}.i > {}", n, rng.range(0, 3)),
+            2 => format!(" WHERE {}.v IS NULL", n),
+            3 => format!(" WHERE toInteger({}.v) > 0", n),
+            4 => format!(" WHERE {}.k = 's' OR {}.i = 1", n, n),
+            _ => format!(" WHERE NOT ({}.i = {})", n, rng.range(0, 3)),
+        };
+    }
+    let mut items: Vec<(String, Ty)> = Vec::new();
+    let want = 1 + rng.below(3);
+    for _ in 0..want {
+        let total = h.nodes.len() * 3 + h.ints.len();
+        let c = rng.below(total as u64) as usize;
+        let it = if c < h.nodes.len() * 3 {
+            let n = h.nodes[c / 3];
+            match c % 3 {
+                0 => (format!("{}.i", n), Ty::Int),
+                1 => (format!("{}.v", n), Ty::Any),
+                _ => (format!("{}.k", n), Ty::Any),
+            }
+        } else {
+            (h.ints[c - h.nodes.len() * 3].to_string(), Ty::Int)
+        };
+        if !items.iter().any(|(e, _)| *e == it.0) {
+            items.push(it);
+        }
+    }
+    let mut g = QGen::new(rng, size);
+    g.min_limit = min_limit;
+    let mut body = Vec::new();
+    for (e, t) in items {
+        let a = g.fresh();
+        body.push(format!("{} AS {}", e, a));
+        g.vars.push((a, t));
+    }
+    let distinct = if g.rng.chance(1, 6) { "DISTINCT " } else { "" };
+    s += &format!(" WITH {}{}", distinct, body.join(", "));
+    g.tail(s)
+}
+
+/// write statements (C22): an expression that raises on exactly one row, in every place a write
+/// statement evaluates expressions — the write clause itself, the read clauses before it (lazily
+/// under `execute_write`, stage by stage under `execute_mixed`), FOREACH lists and bodies —
+/// failing row first / middle / last; (statement, it has a RETURN)
+fn write_sweep() -> Vec<(String, bool)> {
+    let mut qs: Vec<(String, bool)> = Vec::new();
+    let fns: &[(&str, &[&str], &str)] =
+        &[("toInteger", &["1", "'7'", "2"], "true"), ("toBoolean", &["'true'", "'false'", "true"], "1")];
+    for (f, ok, bad) in fns {
+        for n in [0usize, 1, 2, 3, 5] {
+            for pos in 0..4 {
+                if n <= 1 && pos > 0 && pos < 3 || n == 2 && pos == 1 {
+                    continue;
+                }
+                // pos 3 = no failing row at all
+                let l = if pos == 3 { list_with_bad(n, 0, ok, ok[0]) } else { list_with_bad(n, pos, ok, bad) };
+                let src = format!("UNWIND {} AS x", l);
+                for ret in [false, true] {
+                    let r = |q: String, with: &str| (if ret { format!("{} RETURN {} AS r", q, with) } else { q }, ret);
+                    qs.push(r(format!("{} CREATE (:T {{b: {}(x)}})", src, f), "x"));
+                    qs.push(r(format!("{} WITH {}(x) AS b CREATE (:T {{b: b}})", src, f), "b"));
+                    qs.push(r(format!("{} WITH {}(x) AS b LIMIT 1 CREATE (:T {{b: b}})", src, f), "b"));
+                    qs.push(r(format!("{} WITH x ORDER BY {}(x) CREATE (:T {{v: 1}})", src, f), "x"));
+                    qs.push(r(format!("{} WITH x ORDER BY {}(x) LIMIT 1 CREATE (:T {{v: 1}})", src, f), "x"));
+                    qs.push(r(format!("{} WITH DISTINCT {}(x) AS b CREATE (:T {{b: b}})", src, f), "b"));
+                    qs.push(r(format!("{} WITH x WHERE {}(x) IS NOT NULL CREATE (:T {{v: 1}})", src, f), "x"));
+                    qs.push(r(format!("{} WITH x SKIP 1 CREATE (:T {{b: {}(x)}})", src, f), "x"));
+                    qs.push(r(format!("{} WITH count({}(x)) AS c CREATE (:T {{c: c}})", src, f), "c"));
+                    qs.push(r(format!("{} WITH x LIMIT 1 CREATE (:T {{b: {}(x)}})-[:E {{w: 1}}]->(:U)", src, f), "x"));
+                }
+                qs.push((format!("FOREACH (x IN {} | CREATE (:T {{b: {}(x)}}))", l, f), false));
+                qs.push((format!("UNWIND [1, 2] AS k FOREACH (x IN {} | CREATE (:T {{b: {}(x), k: k}}))", l, f), false));
+                qs.push((format!("{} FOREACH (i IN [{}(x)] | CREATE (:T {{b: i}}))", src, f), false));
+                qs.push((format!("{} FOREACH (i IN [1, 2] | CREATE (:T {{b: {}(x), i: i}}))", src, f), false));
+                qs.push((format!("{} FOREACH (i IN x | CREATE (:T {{i: i}}))", src), false));
+                // the failing row is an INPUT row of the FOREACH
+                qs.push((format!("{} WITH {}(x) AS b FOREACH (i IN [b] | CREATE (:T {{b: i}}))", src, f), false));
+                qs.push((format!("{} WITH x WHERE {}(x) IS NOT NULL FOREACH (i IN [1] | CREATE (:T {{i: i}}))", src, f), false));
+                qs.push((format!("{} WITH x ORDER BY {}(x) FOREACH (i IN [1] | CREATE (:T {{i: i}}))", src, f), false));
+            }
+        }
+    }
+    qs
+}
+
+fn emit_w(out: &mut dyn Write, op: &str, cy: &str, staged: bool) -> bool {
+    match model_wplan(cy, staged) {
+        Some(toks) => {
+            writeln!(out, "{} ; {} ; {}", op, toks, cy).unwrap();
+            true
+        }
+        None => false,
+    }
+}
+
+/// write statements under collection limits (C33)
+const WRITE_LIMIT_QUERIES: &[(&str, bool)] = &[
+    ("UNWIND range(1, 20) AS x CREATE (:T {v: x})", false),
+    ("UNWIND range(1, 20) AS x WITH x WHERE x % 2 = 0 CREATE (:T {v: x})", false),
+    ("UNWIND range(1, 12) AS x WITH collect(x) AS xs CREATE (:T {n: 1})", false),
+    ("UNWIND range(1, 12) AS x WITH x % 3 AS k, count(*) AS c CREATE (:T {k: k, c: c})", false),
+    ("UNWIND range(1, 12) AS x WITH x ORDER BY x DESC LIMIT 3 CREATE (:T {v: x})", false),
+    ("UNWIND range(1, 12) AS x WITH DISTINCT x % 4 AS m CREATE (:T {m: m})", false),
+    ("UNWIND [1, 2, 3] AS x FOREACH (i IN range(1, 6) | CREATE (:T {v: i}))", false),
+    ("UNWIND range(1, 9) AS x WITH collect(x) AS xs FOREACH (i IN xs | CREATE (:T {v: i}))", false),
+    ("UNWIND range(1, 20) AS x CREATE (:T {v: x}) RETURN x AS x", true),
+    ("UNWIND range(1, 12) AS x WITH collect(x) AS xs CREATE (:T {n: 1}) RETURN xs AS xs", true),
+    ("UNWIND range(1, 12) AS x WITH x ORDER BY x DESC LIMIT 3 CREATE (:T {v: x}) RETURN x AS x", true),
+    ("UNWIND range(1, 12) AS x WITH x % 3 AS k, count(*) AS c CREATE (:T {k: k, c: c}) RETURN k AS k", true),
+    ("UNWIND range(1, 12) AS x WITH DISTINCT x % 4 AS m CREATE (:T {m: m}) RETURN m AS m", true),
+    ("UNWIND range(1, 12) AS x CREATE (:T {v: x}) WITH x WHERE x > 3 RETURN count(x) AS c", true),
+];
+
+/// the fixed graphs a run uses
+fn graph_ids(tier: &str) -> Vec<u64> {
+    if tier == "thorough" { (1..=24).collect() } else { (1..=6).collect() }
+}
+
+fn emit_qg(out: &mut dyn Write, op: &str, db: &Db, cy: &str) -> bool {
+    match model_plan_db(db, cy) {
+        Some(toks) => {
+            writeln!(out, "{} ; {} ; {}", op, toks, cy).unwrap();
+            true
+        }
+        None => false,
+    }
+}
+
+/// C22 on the fixed graphs: every head once with a plain projection of a property that can raise,
+/// then random queries
+fn generate_c22_graph(rng: &mut Rng, n: usize, tier: &str, out: &mut dyn Write) {
+    register_fixtures();
+    let ids = graph_ids(tier);
+    let mut stats = (0usize, 0usize);
+    for id in &ids {
+        writeln!(out, "#case graph-{}", id).unwrap();
+        let (_dir, db) = build_graph(*id);
+        for h in HEADS {
+            let tails: Vec<String> = if let Some(n) = h.nodes.last() {
+                vec![
+                    format!("RETURN toBoolean({}.v) AS x", n),
+                    format!("RETURN DISTINCT toBoolean({}.v) AS x", n),
+                    format!("RETURN {}.i AS x ORDER BY toBoolean({}.v) LIMIT 2", n, n),
+                    format!("RETURN {}.i AS x SKIP 1", n),
+                ]
+            } else {
+                vec!["RETURN out AS x".to_string(), "RETURN DISTINCT q AS x ORDER BY x LIMIT 2".to_string()]
+            };
+            for t in tails {
+                stats.1 += 1;
+                if emit_qg(out, &format!("qg {}", id), &db, &format!("{} {}", h.text, t)) {
+                    stats.0 += 1;
+                }
+            }
+        }
+        let mut made = 0;
+        let mut tries = 0;
+        let per = n / ids.len() + 1;
+        while made < per && tries < per * 10 {
+            tries += 1;
+            let cy = graph_query(rng, 4, 0);
+            stats.1 += 1;
+            if emit_qg(out, &format!("qg {}", id), &db, &cy) {
+                made += 1;
+                stats.0 += 1;
+            }
+        }
+    }
+    let _ = stats;
+}
+
+/// C33 on the fixed graphs: the limits around what the unlimited run needs
+fn generate_c33_graph(rng: &mut Rng, n: usize, tier: &str, out: &mut dyn Write) {
+    register_fixtures();
+    let ids = graph_ids(tier);
+    for id in &ids {
+        writeln!(out, "#case graph-{}", id).unwrap();
+        let (_dir, db) = build_graph(*id);
+        // OPTIONAL MATCH … WHERE and the blocking operators over expansions under EVERY collection
+        // limit that can matter: each of the check sites (outer / filtered / output, OrderBy.collect,
+        // Aggregate.*) is the first to fail for some limit
+        let sweep_heads: Vec<&Head> = HEADS.iter().filter(|h| h.text.contains("OPTIONAL MATCH") && h.text.contains("WHERE")).collect();
+        let picks: Vec<&&Head> = if tier == "thorough" { sweep_heads.iter().collect() } else { sweep_heads.iter().skip((*id % 2) as usize).step_by(2).collect() };
+        for h in picks {
+            for tail in ["RETURN a.i AS x, b.i AS y", "RETURN a.i AS x, b.i AS y ORDER BY x", "RETURN a.i AS x, count(b) AS c"] {
+                let cy = format!("{} {}", h.text, tail);
+                let Some(toks) = model_plan_db(&db, &cy) else { continue };
+                let (o, _) = run_query(&db, &cy, unlimited());
+                let Outcome::Rows(rows) = &o else { continue };
+                let top = rows.len().max(4) + 3;
+                for c in 1..=top {
+                    writeln!(out, "limg {} - {} - ; {} ; {}", id, c, toks, cy).unwrap();
+                }
+            }
+        }
+        let mut made = 0;
+        let mut tries = 0;
+        let per = n / ids.len() + 1;
+        while made < per && tries < per * 10 {
+            tries += 1;
+            let cy = graph_query(rng, 6, 1);
+            let Some(toks) = model_plan_db(&db, &cy) else {
+                // outside the translated fragment: engine only
+                if rng.chance(1, 4) {
+                    writeln!(out, "limxg {} {} - - ; {}", id, pick_limit(rng, 30), cy).unwrap();
+                }
+                continue;
+            };
+            let (o, emitted) = run_query(&db, &cy, unlimited());
+            let nrows = match &o {
+                Outcome::Rows(r) => r.len(),
+                _ => 3,
+            };
+            for _ in 0..2 {
+                let r = pick_limit(rng, emitted);
+                let c = if rng.chance(1, 2) { "-".to_string() } else { pick_limit(rng, nrows.max(4)) };
+                writeln!(out, "limg {} {} {} - ; {} ; {}", id, r, c, toks, cy).unwrap();
+            }
+            made += 1;
+        }
+    }
 }
 
 /// C33 probes: (query, rows, coll, apply)
@@ -1314,6 +2350,14 @@ fn generate_c33(rng: &mut Rng, n: usize, tier: &str, out: &mut dyn Write) {
             let c = if rng.chance(1, 2) { "-".to_string() } else { pick_limit(rng, 10) };
             let a = if rng.chance(2, 3) { "-".to_string() } else { pick_limit(rng, 4) };
             writeln!(out, "limx {} {} {} ; {}", r, c, a, q).unwrap();
+        }
+    }
+    generate_c33_graph(rng, n / 6, tier, out);
+    writeln!(out, "#case write-limits").unwrap();
+    for (cy, ret) in WRITE_LIMIT_QUERIES {
+        let lims: Vec<usize> = if tier == "thorough" { (1..=24).collect() } else { vec![1, 2, 3, 5, 6, 8, 11, 12, 13, 19, 20, 21] };
+        for c in lims {
+            emit_w(out, &format!("{} {}", if *ret { "wmlim" } else { "wlim" }, c), cy, *ret);
         }
     }
     // soft timeout (child process; nondeterministic by nature: only complete-or-limit is compared)
